@@ -1,7 +1,7 @@
 """C01 - parsing conforms to the declared command-line grammar."""
 from vlib import *
 import defs as D
-from cmdline_check import run_cmdline_property
+from cmdline_check import run_cmdline_property, merge_cov
 import cmdline_sig
 
 
@@ -23,6 +23,16 @@ def run(v):
     dpath = os.path.join(WORK, f"C01-{v.tier}-defs.ndjson")
     _, sm = cached_tlc_cases("C01-sentence", "MC_Sentence", "MC_Sentence.cfg", dpath, extra_files=[os.path.join(TLA, "Sentence.tla")])
     cov["sentence_iff_ok_states"] = sm["distinct"]
+    # a value attached to a name that takes none (`--verbose=x`, `-v=x`) next to free positional slots and subcommands
+    q = v.tier == "quick"
+    ffam = D.conv_family(SEED + 5, 16 if q else 80, max_named=2, maxlen=3, budget=10**9) + D.pos_family(SEED + 6, 12 if q else 60, maxlen=3, budget=10**9) + \
+        D.cmd_family(SEED + 7, 8 if q else 40, depth=2, maxlen=3, budget=10**9)
+    for d in ffam:
+        d["alpha"]["flageq"] = True
+        d["alpha"]["clusters"] = False
+        D.trim_to_budget(d, 3000 if q else 30000)
+    fcov = run_cmdline_property(v, ffam, None, signature=cmdline_sig.signature, name="C01f")
+    cov = merge_cov(cov, fcov, "flag_with_value")
     cov["rule"] = ("every line over each definition's alphabet up to its maxlen, enumerated by TLC; non-trivial = "
                    "non-empty line inside the property's quantifier; driver lines are generated sentences and their mutations")
     cov["exhaustive"] = True
